@@ -39,6 +39,8 @@ def kcell(rng, kind):
         return rng.choice([0, 1, 1.0, 2.5, {'$nan': rng.randrange(9)}, {'$nan': 'np'}, {'$nan': rng.randrange(9)}])
     if kind == 'dt':
         return {'$dt': rng.choice(['2020-01-01T00:00:00', '2021-06-30T00:00:00'])}
+    if kind == 'pdns':      # stamps a few nanoseconds apart (pandas Timestamps carry them): different keys
+        return rng.choice([{'$pdts': '2020-01-01T00:00:00'}, {'$pdts': '2020-01-01T00:00:00.000000001'}, {'$pdts': '2020-01-01T00:00:00.000000002'}, {'$dt': '2020-01-01T00:00:00'}, {'$pdts': '2020-01-01T00:00:00.000001'}])
     if kind == 'dtz':
         # timezone-aware stamps: different instants that read the same on the wall clock of their own zone are different keys
         return {'$dt': rng.choice(['2020-01-01T09:30:00+00:00', '2020-01-01T09:30:00+01:00', '2020-01-01T09:30:00-05:00', '2020-01-01T10:30:00+00:00', '2020-01-01T09:30:00+09:00'])}
@@ -269,7 +271,7 @@ def gen_case(rng):
     if how == 'pivot':
         nx = rng.choice([1, 1, 2])
         x = rng.choice([['a', 'b'], ['id1', 'tk'], ['ticker', 'p2'], ['data', 'columns'], ['columns', 'key']])[:nx]
-        kinds = [rng.choice(['int', 'str', 'num', 'dt', 'mixed', 'numnan', 'bigint', 'npfloat', 'dtz']) for _ in x]
+        kinds = [rng.choice(['int', 'str', 'num', 'dt', 'mixed', 'numnan', 'bigint', 'npfloat', 'dtz', 'pdns']) for _ in x]
         cols = {c: [kcell(rng, k) for _ in range(n)] for c, k in zip(x, kinds)}
         ykind = rng.choice(['str', 'int', 'both', 'str', 'int', 'both', 'other', 'samestr', 'floats'])
         ypool = {'str': ['p', 'q', 'r'], 'int': [1, 2, 3], 'both': ['p', 'q', 1, 2], 'other': [2.5, 0.5, {'$dt': '2020-01-01T00:00:00'}, {'$dt': '2021-06-30T00:00:00'}, 'p'],
@@ -282,7 +284,7 @@ def gen_case(rng):
         agg = rng.choice([None, None, 'first', 'last', 'len', ['last'], ['first'], ['last', 'str'], ['len', 'str'], ['first', 'wrap', 'len'], ['last', 'wrap']])     # lists apply left to right
         return {'how': 'pivot', 'cols': cols, 'x': x, 'agg': agg, 'xstr': rng.random() < 0.5, 'alias': rng.random() < 0.3}
     names = (['a', 'b', 'c', 'd'] if rng.random() > 0.1 else ['data', 'columns', 'key', 'x'])[:rng.randint(1, 4)]     # also columns called like the library's own parameters
-    kinds = {c: rng.choice(['int', 'str', 'num', 'dt', 'mixed', 'mixed', 'numnan', 'bigint', 'npfloat', 'dtz']) for c in names}
+    kinds = {c: rng.choice(['int', 'str', 'num', 'dt', 'mixed', 'mixed', 'numnan', 'bigint', 'npfloat', 'dtz', 'pdns']) for c in names}
     nk = rng.randint(1, len(names))
     keys = rng.sample(names, nk)
     cols = {}
